@@ -29,9 +29,10 @@ var c03Operands = []operand{
 	// arrays
 	lit("[]", []interface{}{}), lit("[1]", []interface{}{1.0}), lit("[1,2]", []interface{}{1.0, 2.0}), lit(`["a"]`, []interface{}{"a"}),
 	lit("[[1]]", []interface{}{[]interface{}{1.0}}), lit("[0]", []interface{}{0.0}), lit(`[1,"a"]`, []interface{}{1.0, "a"}),
+	lit("[null]", []interface{}{nil}), lit("[1,null]", []interface{}{1.0, nil}),
 	// objects
 	lit("{}", map[string]interface{}{}), lit(`{"a":1}`, map[string]interface{}{"a": 1.0}), lit(`{"a":2}`, map[string]interface{}{"a": 2.0}),
-	lit(`{"b":[]}`, map[string]interface{}{"b": []interface{}{}}),
+	lit(`{"b":[]}`, map[string]interface{}{"b": []interface{}{}}), lit(`{"a":null}`, map[string]interface{}{"a": nil}),
 	// functions (never from input)
 	{"$sum", &ref.Func{Name: "sum"}, false}, {"(function($x){$x})", &ref.Func{Name: "lambda"}, false},
 	// missing
@@ -86,9 +87,9 @@ func init() {
 		Rule: "every (operator, left operand, right operand, supply mode) cell of the table is one case, plus depth-2 nestings, ranges, " +
 			"conditionals with throwing branches; a case is non-trivial when the implementation returns a value (not 'no value' / error)",
 		Assumptions: []string{
-			"null=null, equality/membership between two functions: outcome not fixed by the statement, totality only",
+			"equality/membership between two functions: outcome not fixed by the statement, totality only; null equals null (structural equality of JSON values)",
 			"when one operand is missing and the other has the wrong type the type error wins (pinned tree and jsonata-js agree)",
-			"operands outside the 43-value alphabet are not covered",
+			"operands outside the 46-value alphabet are not covered",
 		},
 		Phases: []explore.Phase{
 			{Name: "binary-table", Quick: []int{1}, Run: func(c *explore.Chooser, x *explore.Ctx, _ int) {
